@@ -6,8 +6,14 @@
    (aiohomekit/controller/ip/pairing.py, controller/abstract.py).
 
    A discrete-event machine: time in ticks of 1/4096 s; a network script (one entry per
-   aiohappyeyeballs.start_connection call, one verify outcome per opened connection) and
-   time-stamped control events.  Every step runs the modelled component to quiescence.
+   aiohappyeyeballs.start_connection call; per opened connection one verify entry
+   (kind, delta, vdelay): the decisive pair-verify answer, the duration of the re-subscribe
+   round trip after success, and the time the accessory takes before that decisive answer -
+   0 = same tick, >= 30 s = the request timeout of InsecureHomeKitProtocol._send_lines cuts
+   in first) and time-stamped control events.  Every step runs the modelled component to
+   quiescence.  While the answer is outstanding the connector is in phase [PVerify]: the
+   connection is open and current (transport/protocol set) but is_secure is False; every control
+   event and the waiters' 10 s deadlines can fall into that window.
    Shared by C10 (attempt times, back-off, single connector, waiters) and C11 (open set).
    Definitions only; proofs are in Proofs/Reconnect*.v. *)
 From Coq Require Import List NArith Arith Bool.
@@ -246,6 +252,9 @@ Definition reconnect_soon (s : st) : st :=
   | _ => start_reconnecting s
   end.
 
+(* _stop_connector: cancel the connector task and wait for it.  Cancelled in PVerify, the pending request
+   raises CancelledError inside _send_lines, which closes the transport; _reconnect drops it: both are
+   [drop_transport] of the current connection *)
 Definition stop_connector (s : st) : st :=
   if running s then
     let s := match ph s with
